@@ -715,3 +715,40 @@ Proof.
   split; [|split; [reflexivity|split; [cbn; auto|cbn; discriminate]]].
   repeat split; cbn; try reflexivity; repeat constructor; cbn; intuition discriminate.
 Qed.
+
+(* ---- label / trigger events passed BY ID (the `ev.id = seq.register_label_event(ev)` idiom) ---------------- *)
+(* set_block trusts an id attached to the event (block.py: `if hasattr(event, 'id')`).  When the id is the one
+   register_label_event returned for THIS store, storing by id equals storing by value ... *)
+Theorem label_by_value_eq_by_id : forall abs_fix c i s v l hint,
+  let '(c1, id, _) := register_label c s v l in
+  fst (fst (set_block_core abs_fix c i [MLabel None s v l] hint)) =
+  fst (fst (set_block_core abs_fix c1 i [MLabel (Some id) s v l] hint)).
+Proof.
+  intros abs_fix c i s v l hint.
+  unfold set_block_core. cbn [ev_loop ev_step a_core a_blk a_exts].
+  destruct (register_label c s v l) as [[c1 id] clr].
+  destruct (ext_type_id c1 (if s then XS_LABELSET else XS_LABELINC)) as [c2 tid].
+  cbn -[check_channels Qcmax Qcplus Qcmult ext_register].
+  destruct (ext_register hint (ext_l c2) [(tid, id)]) as [el eid].
+  match goal with
+  | |- context [check_channels ?x1 ?x2 ?x3 ?x4 ?x5 ?x6] =>
+    destruct (check_channels x1 x2 x3 x4 x5 x6); reflexivity
+  end.
+Qed.
+
+Theorem ctl_by_value_eq_by_id : forall abs_fix c i ty ch d du hint,
+  let '(c1, id, _) := register_ctl c ty ch d du in
+  fst (fst (set_block_core abs_fix c i [MCtl None ty ch d du] hint)) =
+  fst (fst (set_block_core abs_fix c1 i [MCtl (Some id) ty ch d du] hint)).
+Proof.
+  intros abs_fix c i ty ch d du hint.
+  unfold set_block_core. cbn [ev_loop ev_step a_core a_blk a_exts].
+  destruct (register_ctl c ty ch d du) as [[c1 id] clr].
+  destruct (ext_type_id c1 XS_TRIGGERS) as [c2 tid].
+  cbn -[check_channels Qcmax Qcplus Qcmult ext_register].
+  destruct (ext_register hint (ext_l c2) [(tid, id)]) as [el eid].
+  match goal with
+  | |- context [check_channels ?x1 ?x2 ?x3 ?x4 ?x5 ?x6] =>
+    destruct (check_channels x1 x2 x3 x4 x5 x6); reflexivity
+  end.
+Qed.
